@@ -65,6 +65,9 @@ class Failpoint:
         self.calls = 0
         self.fired = 0
         self.armed = False
+        self.orig_reorder = _b.reorder
+        self.permute = None     # a random.Random, or None
+        self.permuted = 0
 
     def install(self):
         fp = self
@@ -81,8 +84,23 @@ class Failpoint:
             return fp.orig(bdd)
         _b._request_reordering = hook
 
+        def reorder(bdd, order=None):
+            # the reordering that serves a request: sifting, and then
+            # (hostile outcome, every other fault point) a further
+            # arbitrary permutation - whatever order a reordering ends
+            # with, the retried operation must give the same function
+            fp.orig_reorder(bdd, order)
+            if order is None and fp.permute is not None and \
+                    bdd._last_len is None and fp.fired:
+                names = list(bdd.vars)
+                fp.permute.shuffle(names)
+                fp.orig_reorder(bdd, {v: i for i, v in enumerate(names)})
+                fp.permuted += 1
+        _b.reorder = reorder
+
     def uninstall(self):
         self._b._request_reordering = self.orig
+        self._b.reorder = self.orig_reorder
 
     def arm(self, k):
         self.k = k
@@ -136,6 +154,21 @@ def _op_apply(sym):
     return make
 
 
+def _op_apply_quant(sym):
+    def make(w, rng):
+        # the first operand only supplies its support: a function of
+        # one or two variables, so that the result is not a constant
+        vs = rng.sample(list(w.sp.names), rng.randint(1, 2))
+        t = w.sp.cube_table({v: rng.random() < 0.5 for v in vs})
+        w.accept('find_or_add', w.build(t), t, strict=True)
+        a, b = w.pool[-1], w.pool[1]
+        from vf.oracle import QUANT_OPS
+        q = w.sp.support(a.tt)
+        want = (w.sp.forall if QUANT_OPS[sym] else w.sp.exists)(b.tt, q)
+        return (lambda: w.bdd.apply(sym, a.h, b.h)), want, 'apply-quantifier'
+    return make
+
+
 def _op_fop(name):
     def make(w, rng):
         a, b = w.pool[0], w.pool[1]
@@ -146,6 +179,24 @@ def _op_fop(name):
             implies=(lambda: a.h.implies(b.h), sp.IMPLIES(a.tt, b.tt)),
             equiv=(lambda: a.h.equiv(b.h), sp.EQUIV(a.tt, b.tt)))[name]
         return fn, want, 'Function.' + name
+    return make
+
+
+def _op_fmethod(name):
+    def make(w, rng):
+        a = w.pool[0]
+        sp = w.sp
+        vs = rng.sample(list(sp.names), 2)
+        if name == 'exist':
+            return (lambda: a.h.exist(*vs)), sp.exists(a.tt, vs), \
+                'Function.exist'
+        if name == 'forall':
+            return (lambda: a.h.forall(*vs)), sp.forall(a.tt, vs), \
+                'Function.forall'
+        d = {v: w.pool[1 + i].h for i, v in enumerate(vs)}
+        want = sp.substitute(a.tt, {v: w.pool[1 + i].tt
+                                    for i, v in enumerate(vs)})
+        return (lambda: a.h.let(**d)), want, 'Function.let'
     return make
 
 
@@ -342,6 +393,13 @@ OPS = {
     'apply-diff': (_op_apply('-'), BOTH),
     'apply-nand-like-ampamp': (_op_apply('&&'), BOTH),
     'apply-pipepipe': (_op_apply('||'), BOTH),
+    'apply-forall': (_op_apply_quant('\\A'), BOTH),
+    'apply-exists': (_op_apply_quant('\\E'), BOTH),
+    'apply-forall-word': (_op_apply_quant('forall'), BOTH),
+    'apply-exists-word': (_op_apply_quant('exists'), BOTH),
+    'fop-exist': (_op_fmethod('exist'), ('autoref',)),
+    'fop-forall': (_op_fmethod('forall'), ('autoref',)),
+    'fop-let': (_op_fmethod('let'), ('autoref',)),
     'fop-and': (_op_fop('and_'), ('autoref',)),
     'fop-or': (_op_fop('or_'), ('autoref',)),
     'fop-implies': (_op_fop('implies'), ('autoref',)),
@@ -381,6 +439,7 @@ def run_point(ctx, fp, reg, seed, kind, opname, k):
     fn, want, site = make(w, rng)
     w.bdd.configure(reordering=True)
     info = dict(op=opname, manager=kind, scenario=seed, k=k)
+    fp.permute = random.Random(seed * 31 + k) if k % 2 else None
     fp.arm(k)
     h = None
     try:
@@ -445,6 +504,9 @@ def faults(ctx, spec):
                 ctx.case(fired, opname, kind, seed, k)
                 if fired:
                     ctx.counters['fault_points_fired'] += 1
+                    ctx.counters['order_permuted_after_sifting'] += \
+                        fp.permuted
+                    fp.permuted = 0
                 else:
                     ctx.counters['control_points'] += 1
                 if not ok:
@@ -488,7 +550,7 @@ def natural(ctx, spec):
         menu = dict(build=6, apply=10, apply_quant=1, ite=6, quantify=4,
                     let_const=3, let_rename=3, let_compose=3, cube=1, var=1,
                     add_expr=3, drop=7, drop_many=1, dup=1, canon=2,
-                    gc=1, fop=4 if kind == 'autoref' else 0,
+                    gc=1, rearm=3, fop=4 if kind == 'autoref' else 0,
                     traverse=2 if kind == 'autoref' else 0, **{'not': 1})
         for k in range(spec['steps']):
             ok, res = ctx.guard(w.site, w.step, menu, case=dict(
